@@ -343,10 +343,19 @@ def _digest(ctx, model):
     nt = model.nodes
     # 1. every value reaching key_hash.update
     n_sinks = 0
+    called = {c.func.attr for mm in ph.members.values() if mm.kind == "func"
+              for c in ast.walk(mm.node) if isinstance(c, ast.Call)
+              and isinstance(c.func, ast.Attribute)
+              and isinstance(c.func.value, ast.Name) and c.func.value.id == "self"}
     for name, mem in ph.members.items():
         if mem.kind != "func":
             continue
-        for ps in summarize(mem.node):
+        if name.startswith("_") and not name.startswith("__") and \
+                name in called:
+            # a private helper: judged where it is used (the summaries of its
+            # callers read it as its body, with their arguments in place)
+            continue
+        for ps in summarize(model.inlined(mem.node)):
             for e in ps.events:
                 if e.kind == "selfattrcall" and e.value == ("self", "key_hash") \
                         and e.name == "update":
@@ -440,11 +449,25 @@ def _stable_str(r):
             return True, "repr of a constant / operator string"
         if a[0] == "field" or (a[0] == "attr" and a[1] == NODE):
             return True, f"repr of field {a[-1]}"
+        if a[0] == "const" and (a[1] is None or isinstance(
+                a[1], (str, int, bool))):
+            return True, "repr of a literal"
+        if a[0] == "anyof":
+            # one of several values (an entry of a literal tuple)
+            subs = [_stable_str(("call", "repr", (x,), ())) for x in a[1]]
+            if all(ok for ok, _ in subs):
+                return True, "repr of " + " / ".join(w[8:] if w.startswith(
+                    "repr of ") else w for _, w in subs)
         # one entry of a field (names, numbers, nodes: data whose repr is the
         # same in every process)
-        if a[0] in ("elem", "index") and isinstance(a[1], tuple) and (
-                a[1][0] == "field" or (a[1][0] == "attr" and a[1][1] == NODE)):
-            return True, f"repr of an entry of field {a[1][-1]}"
+        src_ = a[1] if a[0] in ("elem", "index") and isinstance(
+            a[1], tuple) else None
+        if src_ is not None and src_[0] == "copy" and isinstance(
+                src_[1], tuple):
+            src_ = src_[1]          # tuple(field) / list(field): the same entries
+        if src_ is not None and (
+                src_[0] == "field" or (src_[0] == "attr" and src_[1] == NODE)):
+            return True, f"repr of an entry of field {src_[-1]}"
         if a[0] == "key" and isinstance(a[1], tuple) and (
                 a[1][0] == "field" or (a[1][0] == "attr" and a[1][1] == NODE)):
             # keys of a mapping-valued field are names or numbers (keyword
@@ -453,6 +476,10 @@ def _stable_str(r):
         return False, f"repr({_short(a)})"
     if r[0] == "call" and r[1] == "str":
         return _stable_str(("call", "repr", r[2], ()))
+    if r[0] == "fstring":
+        # literal text and lengths
+        if all(x[0] == "const" or x[0] == "len" for x in r[1]):
+            return True, "literal text and a length"
     if r[0] == "call" and r[1] in ("hash", "id"):
         return False, f"{r[1]}() of an object"
     return False, f"{_short(r)}"
